@@ -227,8 +227,6 @@ def run(ctx):
     summ['models_used'] = sorted(set(summ['models_used']) | set(summ2['models_used']))
     summ['bodies_used'] = sorted(set(summ['bodies_used']) | set(summ2['bodies_used']))
     inconclusive = []
-    if summ['truncated']:
-        inconclusive.append('exploration truncated by the wall-clock budget')
     by_status = {}
     for r in recs:
         by_status[r['status']] = by_status.get(r['status'], 0) + 1
@@ -287,7 +285,7 @@ def run(ctx):
     ev = {
         'coverage': {
             'states': max(1, summ['paths']), 'transitions': max(1, summ['decisions']),
-            'traces_validated_against_impl': validated, 'samples': samples, 'exhaustive': not inconclusive,
+            'traces_validated_against_impl': validated, 'samples': samples, 'exhaustive': not summ.get('truncated') and not inconclusive, 'truncated_by_budget': bool(summ.get('truncated')),
             'bound': {'programs': len(progs), 'ordered_pairs': len(progs) ** 2, 'history_modes': ['parse-only', 'once', 'repeat x%d' % R, 'same AST twice'],
                       'context_values': 'four symbolic integers |n| <= 10^12'},
             'path_status': by_status, 'global_cells_changed_by_a_call': changed,
